@@ -5,6 +5,7 @@ Nothing is imported or executed; everything comes from `ast.parse`.
 from __future__ import annotations
 
 import ast
+import copy
 import hashlib
 import os
 from typing import Optional
@@ -132,6 +133,74 @@ def _positive(test):
   return test, False
 
 
+def _normalise_inline_splat(tree):
+  """`f(a, **dict(k=v, j=w))` / `f(a, **{'k': v})` -> `f(a, k=v, j=w)`: the same call (keywords are evaluated in the same order)."""
+  for n in ast.walk(tree):
+    if isinstance(n, ast.Call) and any(k.arg is None for k in n.keywords):
+      out = []
+      for k in n.keywords:
+        v = k.value
+        if k.arg is None and isinstance(v, ast.Call) and isinstance(v.func, ast.Name) and v.func.id == 'dict' and not v.args and v.keywords and all(x.arg is not None for x in v.keywords):
+          out.extend(v.keywords)
+        elif k.arg is None and isinstance(v, ast.Dict) and v.keys and all(isinstance(x, ast.Constant) and isinstance(x.value, str) and x.value.isidentifier() for x in v.keys):
+          out.extend(ast.keyword(arg=x.value, value=y) for x, y in zip(v.keys, v.values))
+        else:
+          out.append(k)
+      names = [k.arg for k in out if k.arg is not None]
+      if len(names) == len(set(names)):
+        n.keywords = out
+
+
+def _normalise_named_splat(tree):
+  """`opts = dict(k=v, j=w)` ... `f(a, **opts)` -> `f(a, k=v, j=w)` when `opts` is bound once in its function and only ever used as
+  a `**opts` argument there (the shape a "collect the shared keywords in a dict" refactoring produces).  The rules then see the
+  keywords at the call; the order in which the values are evaluated is not something any rule speaks about."""
+  for fn in [n for n in ast.walk(tree) if isinstance(n, (ast.FunctionDef, ast.AsyncFunctionDef))]:
+    own = []
+    stack = list(fn.body)
+    while stack:
+      n = stack.pop()
+      own.append(n)
+      for ch in ast.iter_child_nodes(n):
+        if not isinstance(ch, (ast.FunctionDef, ast.AsyncFunctionDef, ast.ClassDef, ast.Lambda)):
+          stack.append(ch)
+    inner_names = {x.id for n in ast.walk(fn) if isinstance(n, (ast.FunctionDef, ast.AsyncFunctionDef, ast.Lambda)) and n is not fn for x in ast.walk(n) if isinstance(x, ast.Name)}
+    stores, loads, splats = {}, {}, {}
+    for n in own:
+      if isinstance(n, ast.Name):
+        (stores if isinstance(n.ctx, (ast.Store, ast.Del)) else loads).setdefault(n.id, []).append(n)
+      if isinstance(n, ast.Call):
+        for k in n.keywords:
+          if k.arg is None and isinstance(k.value, ast.Name):
+            splats.setdefault(k.value.id, []).append((n, k))
+    for st in own:
+      if not (isinstance(st, ast.Assign) and len(st.targets) == 1 and isinstance(st.targets[0], ast.Name)):
+        continue
+      name = st.targets[0].id
+      v = st.value
+      if isinstance(v, ast.Call) and isinstance(v.func, ast.Name) and v.func.id == 'dict' and not v.args and v.keywords and all(k.arg is not None for k in v.keywords):
+        items = list(v.keywords)
+      elif isinstance(v, ast.Dict) and v.keys and all(isinstance(k, ast.Constant) and isinstance(k.value, str) and k.value.isidentifier() for k in v.keys):
+        items = [ast.keyword(arg=k.value, value=y) for k, y in zip(v.keys, v.values)]
+      else:
+        continue
+      if len(stores.get(name, [])) != 1 or name in inner_names or not splats.get(name) or len(loads.get(name, [])) != len(splats[name]):
+        continue
+      ok = True
+      for call, k in splats[name]:
+        have = {x.arg for x in call.keywords if x.arg is not None}
+        if have & {x.arg for x in items}:
+          ok = False
+      if not ok:
+        continue
+      for call, k in splats[name]:
+        i = call.keywords.index(k)
+        call.keywords[i:i + 1] = [ast.keyword(arg=x.arg, value=copy.deepcopy(x.value)) for x in items]
+      # the binding itself becomes a no-op
+      st.targets = [ast.Name(id='_', ctx=ast.Store())]
+      st.value = ast.Constant(value=None)
+
+
 def _normalise_polarity(tree):
   """`if not X: A else: B` -> `if X: B else: A` (also for `is not` / `!=` / `not in` and conditional expressions):
   two-armed conditionals are kept with a positive test, so rules see one polarity only."""
@@ -234,6 +303,8 @@ class Mod:
     except SyntaxError as e:
       raise AnalysisError('unparsable file %s: %s' % (rel, e))
     _normalise_nested_names(self._tree, rel)
+    _normalise_inline_splat(self._tree)
+    _normalise_named_splat(self._tree)
     _normalise_polarity(self._tree)
     _normalise(self._tree)
     self._import_nodes = astu.set_parents(self._tree)
